@@ -445,38 +445,56 @@ pub fn c08(opts: &Opts, out: &mut Out) {
                         &key,
                         &format!("batch with equal-and-opposite defects (computed from factors observed on earlier runs) ACCEPTED; offsets d1[{}]+={} on member {}, d1[{}]+={} on member {}", kk, hs(&delta), i, kk, hs(&oc[j][kk]), j),
                     );
-                    // the ratio of the two factors must have changed between the runs
-                    let fi_c = (rc.coord(ids.gb[kk])) ;
-                    let _ = fi_c;
-                    // ratio changes when only r1 of member i changes
+                    let _ = rc;
+                    // equal-and-opposite defects under the simplest guess, ratio 1 (equal weights)
+                    let mut od = zero.clone();
+                    od[i][kk] = delta;
+                    od[j][kk] = -delta;
+                    let (okd, _, _) = run(&od, &zr);
+                    out.oracle("C08:cancelling-defects-rejected", !okd, &key, &format!("batch with defects +{d} and -{d} on d1[{}] of members {} and {} ACCEPTED (the two members enter with the same factor)", kk, i, j, d = hs(&delta)));
+                    // the ratio of the two factors read in ONE run (member i perturbed on coordinate kk, member j on another
+                    // coordinate), used for the cancelling pair of the next run, and compared across a change of r1
+                    if whole && t >= 2 {
+                        let k2 = (kk + 1) % t;
+                        let mut oe = zero.clone();
+                        oe[i][kk] = delta;
+                        oe[j][k2] = delta;
+                        let (_, re1, _) = run(&oe, &zr);
+                        let (wi, wj) = (re1.coord(ids.gb[kk]) * delta.invert(), re1.coord(ids.gb[k2]) * delta.invert());
+                        if wj != Scalar::ZERO && wi != Scalar::ZERO {
+                            let rho = wi * wj.invert();
+                            let mut of = zero.clone();
+                            of[i][kk] = delta;
+                            of[j][kk] = -(delta * rho);
+                            let (okf, _, _) = run(&of, &zr);
+                            out.oracle("C08:cancelling-defects-rejected", !okf, &key, "batch with equal-and-opposite defects computed from the ratio of the two factors read in one earlier run ACCEPTED");
+                            // the ratio changes whenever a response scalar of either member changes
+                            for (which, member) in [("r1", i), ("s1", i), ("r1", j), ("s1", j)] {
+                                let mut zr3 = zr.clone();
+                                let mut zs3 = zs.clone();
+                                if which == "r1" { zr3[member] = Scalar::ONE; } else { zs3[member] = Scalar::ONE; }
+                                let (_, re2, _) = run3(&oe, &zr3, &zs3);
+                                let (wi2, wj2) = (re2.coord(ids.gb[kk]) * delta.invert(), re2.coord(ids.gb[k2]) * delta.invert());
+                                if wj2 != Scalar::ZERO {
+                                    out.oracle("C08:ratio-changes-with-responses", wi2 * wj2.invert() != rho, &key, &format!("the ratio between the factors of members {} and {} is the same after changing {} of member {}", i, j, which, member));
+                                }
+                            }
+                            if t >= 3 {
+                                let k3 = (kk + 2) % t;
+                                let mut oe3 = oe.clone();
+                                oe3[i][k3] += Scalar::ONE;
+                                let (_, re2, _) = run(&oe3, &zr);
+                                let (wi2, wj2) = (re2.coord(ids.gb[kk]) * delta.invert(), re2.coord(ids.gb[k2]) * delta.invert());
+                                if wj2 != Scalar::ZERO {
+                                    out.oracle("C08:ratio-changes-with-responses", wi2 * wj2.invert() != rho, &key, &format!("the ratio between the factors is the same after changing d1[{}] of member {}", k3, i));
+                                }
+                            }
+                        }
+                    }
                     if !whole {
                         classes.insert((n, k, t, mode, kk));
                         continue;
                     }
-                    let mut zr2 = zr.clone();
-                    zr2[i] = Scalar::ONE;
-                    let (_, rd, _) = run(&oa, &zr2);
-                    let fi2 = rd.coord(ids.gb[kk]) * delta.invert();
-                    out.oracle("C08:factor-depends-on-responses", fi2 != fi, &key, "factor of a proof unchanged after changing its r1");
-                    // ... when only s1 of member i changes
-                    let mut zs2 = zs.clone();
-                    zs2[i] = Scalar::ONE;
-                    let (_, re, _) = run3(&oa, &zr, &zs2);
-                    let fi3 = re.coord(ids.gb[kk]) * delta.invert();
-                    out.oracle("C08:factor-depends-on-responses", fi3 != fi, &key, "factor of a proof unchanged after changing its s1");
-                    // ... when only another d1 coordinate of member i changes
-                    if t >= 2 {
-                        let k2 = (kk + 1) % t;
-                        let mut oa2 = oa.clone();
-                        oa2[i][k2] += Scalar::ONE;
-                        let (_, rf, _) = run(&oa2, &zr);
-                        let fi4 = rf.coord(ids.gb[kk]) * delta.invert();
-                        out.oracle("C08:factor-depends-on-responses", fi4 != fi, &key, &format!("factor of a proof unchanged after changing its d1[{}]", k2));
-                    }
-                    // ... and the factor of the *other* member j changes too (every weight is re-randomised)
-                    let (_, rg, _) = run3(&ob, &zr, &zs2);
-                    let fj3 = rg.coord(ids.gb[kk]) * delta.invert();
-                    out.oracle("C08:ratio-changes-with-other-members-responses", fj3 != fj, &key, "factor of member j unchanged after changing s1 of member i");
                     classes.insert((n, k, t, mode, kk));
                 }
             }
